@@ -183,7 +183,9 @@ def r12c(model: Model, rr: RuleResult):
         for n in walk_body(fi, nested=True):
             if isinstance(n, ast.JoinedStr):
                 t = _fstring_template(n)
-                if t and t.endswith(".svg") and "{gid" in t:
+                if t and t.endswith(".svg") and len(n.values) >= 2 and isinstance(n.values[0], ast.FormattedValue) and isinstance(n.values[0].value, ast.Name):
+                    # the placeholder's name is the loop variable of the site: only the format matters for agreement
+                    t = "{gid" + t[len("{" + n.values[0].value.id):]
                     found = (t, n)
         if found is None:
             raise AnalysisError(f"{modname}.{fn}: gid file-name pattern not found")
@@ -193,7 +195,12 @@ def r12c(model: Model, rr: RuleResult):
             par = None
             for n in walk_body(fi, nested=True):
                 if isinstance(n, ast.BinOp) and isinstance(n.op, ast.Div) and n.right is found[1]:
-                    par = norm(n.left)
+                    from ..dataflow import deref as _d12
+                    _c12 = cfg_of(fi)
+                    try:
+                        par = norm(_d12(_c12, _c12.node_for(n), n.left))
+                    except Exception:
+                        par = norm(n.left)
             if par is None or d not in par:
                 rr.bad(fi, found[1], f"{fn}: declared outputs are not under {d}()", construct=f"{fn}: outputs dir {par}")
             else:
